@@ -203,6 +203,10 @@ class UdpInverterProtocol(InverterProtocol, asyncio.DatagramProtocol):
                     self._close_transport()
                 return await self.send_request(command)
             return self._max_retries_reached()
+        except OSError:
+            # the socket could not be (re)opened: the request ends here, the next one starts with its whole retry budget
+            self._retry = 0
+            raise
         finally:
             if self._lock and self._lock.locked():
                 self._lock.release()
